@@ -686,6 +686,12 @@ def main(repo, lean):
     b = function_body(fcgi, r"void\s+async_read_from_socket\s*\(")
     m = need(re.search(r"size_t\s+min_size\s*=\s*std::max\(\s*n\s*,\s*size_t\((\d+)\)\s*\)\s*;\s*if\s*\(\s*cache_\.size\(\)\s*<\s*n\s*\)\s*\{\s*cache_\.resize\(min_size,0\)\s*;", b), "cache sizing")
     w(f"def cacheMin : Nat := {m.group(1)}")
+    # every request starts from a clean per-request state: fastcgi::reset_all() and connection::reset_all() (the cached
+    # getenv() map) at the start of the header phase
+    b = function_body(fcgi, r"virtual\s+void\s+async_read_headers\s*\(\s*handler\s+const\s*&\s*h\s*\)")
+    need(re.search(r"^\s*reset_all\(\)\s*;\s*connection::reset_all\(\)\s*;\s*async_read_record\(", b), "fastcgi::async_read_headers: reset_all(); connection::reset_all(); async_read_record(...)")
+    need(re.search(r"virtual\s+void\s+reset_all\s*\(\s*\)\s*\{\s*map_env_\.clear\(\)\s*;\s*\}", rd(repo, "private/cgi_api.h")), "connection::reset_all clears map_env_")
+    need(re.search(r"connection::reset_all\(\)\s*;", function_body(http, r"void\s+reset_all\s*\(\s*\)\s*\{")), "http::reset_all calls connection::reset_all")
     # widths of the size variables of the record reader: the arithmetic is done in the declared type
     WIDTH = {"size_t": 64, "std::size_t": 64, "unsigned long": 64, "unsigned long long": 64, "uint64_t": 64,
              "unsigned": 32, "unsigned int": 32, "uint32_t": 32, "uint16_t": 16, "unsigned short": 16, "uint8_t": 8, "unsigned char": 8}
